@@ -137,7 +137,10 @@ CLAIMED["C11"] = dict(
          "(C11_no_spurious_panic). The model is tied to the Rust by the tendril correspondence (result, bytes, "
          "inline/owned/shared kind, sharing groups, allocation sizes after every op; 5 formats × 2 atomicities).",
     note="Partial: WTF-8 (the only format with a concatenation fix-up) has no proved format laws — it is covered by the "
-         "safety theorems of C12, the correspondence and the Python reference only. Trusted: Lean kernel; the "
+         "safety theorems of C12, the correspondence and the Python reference only; the check found a genuine defect "
+         "there (WTF8::validate accepts a stray continuation byte after a 2-/3-byte character and skips what follows: "
+         "C11_witness_wtf8_validate, minimal case `tendril wtf8 N from 0 c2 80 80`), reported as VIOLATION until fixed "
+         "or listed in known_findings.json (matcher ids F22 / F-C11-WTF8-VALIDATE). Trusted: Lean kernel; the "
          "hand-written model + the tendril correspondence (differential, coverage in evidence); str::from_utf8 / "
          "char_indices modelled by a Table 3-7 decoder (validated on boundary sequences, thorough tier on all leading "
          "byte pairs); pointer provenance, transmutes between formats/atomicities and Vec/allocator internals are "
@@ -166,6 +169,36 @@ CLAIMED["C12"] = dict(
          "(events with sizes compared with the model after every op, layout/canary/poison/quarantine checks, live=0 at "
          "the end of every case), 4-thread scripts compared with a sequential replay, Miri (no UB on a sample, thorough "
          "tier). UTF-8 safety rests on contents staying valid (via C11's laws).")
+
+CLAIMED["C20"] = dict(
+    engine="rcdom", design_ref="6.20",
+    technique="Lean 4 proof about a statement-by-statement arena model of rcdom/lib.rs (invariant = parent links "
+              "consistent with child lists + no duplicates + acyclic + only documents/elements have children, "
+              "preserved by every TreeSink call within the contract, by induction over call sequences; work-list "
+              "serializer = recursive pre-order) + model/code correspondence on op x node-kind cover, harvested "
+              "parser traces and random contract-abiding sequences + independent Python reference DOM as oracle",
+    text="Proved (Lean kernel, axioms within propext/Classical.choice/Quot.sound) for all arenas satisfying the invariant "
+         "and all calls satisfying the TreeSink contract `H5V.Model.Dom.Contract`, hence for all contract-abiding call "
+         "sequences from RcDom::default(): parent links name exactly the node whose child list holds the node, no node "
+         "listed twice, no cycles (C20_parent_links_step/_parent_links/_reachable_inv); text merging of append / "
+         "append_before_sibling and `no adjacent text siblings` for every call that cannot detach a node, with iff "
+         "characterisations of when remove_from_parent / reparent_children break it; add_attrs_if_missing never "
+         "overwrites and adds each missing name once; reparent_children keeps order and empties the source; template "
+         "contents; remove_from_parent; the repaired append_before_sibling inserts immediately before the sibling "
+         "whatever old parent the node had; the repaired option->selectedcontent mirroring preserves the invariant "
+         "and replaces the selectedcontent's children by fresh copies of the option's children; rcdom's Serialize "
+         "visits every node of a tree exactly once in document order within the stated fuel. The model is tied to "
+         "rcdom/lib.rs by replaying TreeSink traces on the real RcDom (through the trait, under the contract monitor) "
+         "and on the model: dumps incl. Weak parent pointers, template contents, quirks mode, parse errors and the "
+         "serializer's call sequence must be identical; a Python reference DOM written from the property recomputes "
+         "the expected result of every contract-abiding case.",
+    note="Trusted: Lean kernel; the hand-written model lean/H5V/Model/Dom.lean + the rcdom correspondence "
+         "(differential; coverage in evidence); the Python reference DOM (oracle). Carried by the correspondence only, "
+         "not proved: that contract-abiding calls never panic in RcDom (valid families never panic; see C05), the "
+         "deep structure of the option copies below the first level, Rc/Weak lifetimes and Drop (the arena never "
+         "frees a node, the engine keeps every handle alive). Two defects found on the pinned tree (selectedcontent "
+         "never mirrored; append_before_sibling stale index) are repaired in /repo (ebdbd68, 394a5e0); the pinned "
+         "behaviour is kept as named model variants with witness theorems, the minimal inputs as regression corpus.")
 
 PENDING_REASON = "not claimed yet: the Lean model / engine for this property is still under construction (see DESIGN.md section 8); no check is registered rather than registering one that is not sound"
 
